@@ -39,6 +39,7 @@ def make_await_hook(verifier, env, old_entry):
                 st.cancel_point = tag
                 raise PyRaise(VExc("CancelledError", term=st.fresh("exc", Opaque)))
         if c.shared:
+            n_pc = len(st.pc)
             before = st.snapshot()
             ip.havoc(c.shared, cur_env)
             for r in c.rely:
@@ -46,7 +47,21 @@ def make_await_hook(verifier, env, old_entry):
             for name, clause in c.yield_inv.items():
                 st.assume(ip.spec_bool(clause, cur_env, old_entry))
             if not st.feasible(z3.BoolVal(True)):
+                from .state import PathInfeasible, Undecided
+                was = st.was_feasible_before(n_pc)
+                if was == "unsat":
+                    raise PathInfeasible()       # already infeasible before the interference was applied
+                if was == "unknown":
+                    raise Undecided(f"cannot tell whether the path was feasible before {tag}")
+                import os
                 from .loader import Unsupported
+                try:
+                    d = os.path.join(os.path.dirname(os.path.dirname(os.path.abspath(__file__))), "out", "undecided")
+                    os.makedirs(d, exist_ok=True)
+                    with open(os.path.join(d, f"rely_unsat_{os.getpid()}.smt2"), "w") as fh:
+                        fh.write(st.solver.to_smt2())
+                except Exception:  # noqa: BLE001
+                    pass
                 raise Unsupported(f"rely/invariant of {c.fn} unsatisfiable at {tag}")
 
     return hook
